@@ -745,7 +745,13 @@ impl<'a, R: ?Sized + std::io::BufRead> Tokenizer<'a, R> {
 
                 // Verify we're not in a here document.
                 if !matches!(self.cross_state.here_state, HereState::None) {
-                    if self.remove_here_end_tag(&mut state, &mut result, false)? {
+                    // Before the body of a here-document has started, only a token that is
+                    // actually there can be delimited; otherwise an empty tag would match the
+                    // empty token over and over.
+                    if (matches!(self.cross_state.here_state, HereState::InHereDocs)
+                        || state.started_token())
+                        && self.remove_here_end_tag(&mut state, &mut result, false)?
+                    {
                         // If we hit end tag without a trailing newline, try to get next token.
                         continue;
                     }
